@@ -13,7 +13,8 @@ EVIDENCE = dict(
          "the spec's own decoder; and Container.clone() the same way. Every sixth project continues as a history on the same "
          "objects (save, edit in place through the C06 leaf catalogue, save again, load, edit the loaded project, save), each "
          "save judged as its own round trip. distinct_nontrivial = projects with at least two "
-         "modules or a pattern, distinct by content hash.",
+         "modules or a pattern, distinct by content hash."
+         " Deterministic boundary objects (gen.boundary_sources: one Sample object in three slots, slots 0/126/127, waveform -128, an icon under no_icon, module-only lines, empty names, self links) are round-tripped as well.",
     explanation="reference evaluation: RVFormat!Norm / Read are evaluated by TLC on every generated project; states/"
                 "transitions are those of the batch trace validation (one initial state per trace)")
 
